@@ -22,22 +22,60 @@ structure BSt where
   s : Batcher.St Nat
   addedRev : List Nat := []
   flushed : List (List Nat) := []
+  pendA : Option (List String) := none   -- a method call parked inside the batcher's critical section (holds `b.mu`)
+  pendB : Option (List String) := none   -- a method call waiting for `b.mu`
 
 def tokStr : Option Nat → String
   | some n => s!"tok {n}"
   | none => "unarmed"
 
-def bstep (st : BSt) : List String → BSt × String
-  | ["add", x] => ({ st with s := Batcher.add st.s (natOr x), addedRev := natOr x :: st.addedRev }, "-")
-  | ["full"] => (st, toString (Batcher.isFull st.s))
+def tokOf (t : String) : Batcher.Tok := if t == "cur" then Batcher.Tok.cur else Batcher.Tok.tok (natOr t)
+
+/-- one method of the batcher = one atomic action of the model -/
+def bcall (st : BSt) : List String → Option (BSt × String)
+  | ["add", x] => some ({ st with s := Batcher.add st.s (natOr x), addedRev := natOr x :: st.addedRev }, "-")
+  | ["full"] => some (st, toString (Batcher.isFull st.s))
   | ["flush", t] =>
-    let tok := if t == "cur" then Batcher.Tok.cur else Batcher.Tok.tok (natOr t)
-    let r := Batcher.flush st.s tok
-    ({ st with s := r.1, flushed := st.flushed ++ [r.2] }, showNats r.2)
+    let r := Batcher.flush st.s (tokOf t)
+    some ({ st with s := r.1, flushed := st.flushed ++ [r.2] }, showNats r.2)
+  | _ => none
+
+def bstep (st : BSt) (ws : List String) : BSt × String :=
+  let isTry := match ws with | "try" :: _ => true | ["unpark"] => true | _ => false
+  if st.pendA.isSome && !isTry then (st, "busy") else   -- the mutex is held by the parked call
+  match ws with
+  | ["padd", x] =>
+    -- `Add` calls `timer.Set` (where the harness parks it) exactly when it starts a batch with a positive delay
+    if st.s.batch.isEmpty && st.s.hasDelay then ({ st with pendA := some ["add", x] }, "parked")
+    else match bcall st ["add", x] with
+      | some (st1, r) => (st1, "done " ++ r)
+      | none => (st, "bad-op")
+  | ["pflush", t] =>
+    -- `Flush` calls `timer.Stop` exactly when it hands out the batch
+    if Batcher.flushes st.s (tokOf t) then ({ st with pendA := some ["flush", t] }, "parked")
+    else match bcall st ["flush", t] with
+      | some (st1, r) => (st1, "done " ++ r)
+      | none => (st, "bad-op")
+  | "try" :: call =>
+    match st.pendA, st.pendB with
+    | none, _ => (match bcall st call with | some (st1, r) => (st1, "ran " ++ r) | none => (st, "bad-op"))
+    | some _, some _ => (st, "busy")
+    | some _, none => (match bcall st call with | some _ => ({ st with pendB := some call }, "blocked") | none => (st, "bad-op"))
+  | ["unpark"] =>
+    match st.pendA with
+    | none => (st, "none")
+    | some a =>
+      let st0 := { st with pendA := none, pendB := none }
+      match bcall st0 a with
+      | none => (st0, "bad-op")
+      | some (st1, ra) =>
+        match st.pendB with
+        | none => (st1, s!"a={ra} b=-")
+        | some bop => (match bcall st1 bop with | some (st2, rb) => (st2, s!"a={ra} b={rb}") | none => (st1, "bad-op"))
   | ["fire"] => (st, tokStr (Batcher.fire st.s))
   | ["stale"] => (st, tokStr (Batcher.stale st.s))
   | ["concat"] => (st, "ok")   -- spec: C20.batcher_concat evaluated on the implementation
-  | _ => (st, "bad-op")
+  | call => (match bcall st call with | some r => r | none => (st, "bad-op"))
 
 /-! ### reorder fetcher (trace validation) -/
 
@@ -100,7 +138,11 @@ def settle : Nat → RSt → RSt
       | none =>
         match advance st .tmo with
         | some st1 => settle n st1
-        | none => st
+        | none =>
+          -- a timer callback blocked on `BatchTimedOut` is served as soon as the timeout goroutine is back in its select
+          match act st .tmoRecv with
+          | some st1 => settle n (setFree st1 .tmo false)   -- parks at rf.flush.enter
+          | none => st
 
 def thrStr (st : RSt) (t : Reorder.Tid) : String :=
   match Reorder.pc st.s t with
@@ -116,7 +158,7 @@ def running (st : RSt) : List (Nat × List Nat) := st.s.inflight.filter (fun p =
 def snapshot (st : RSt) : String :=
   let run := (running st).map (fun p => s!"{p.1}:" ++ joinWith "." (p.2.map toString))
   s!"p={thrStr st .prod} t={thrStr st .tmo} run={if run.isEmpty then "-" else joinWith ";" run} " ++
-  s!"out={showNats st.out} q={st.s.outq.length} pend={(Reorder.curOf st.s.drainer).length} errs={st.s.errs}"
+  s!"out={showNats st.out} q={st.s.outq.length} pend={(Reorder.curOf st.s.drainer).length} errs={st.s.errs} tok={st.s.pendingTok}"
 
 def finish (st : RSt) (res : String) : RSt × String :=
   (st, res ++ " | " ++ snapshot st)
@@ -162,10 +204,11 @@ def rstep (st0 : RSt) (ws : List String) : RSt × String :=
     | none => finish st "model-stuck"
   | [op] =>
     if op == "fire" || op == "stale" then
-      if !isIdle st.s.tp then finish st "tbusy" else
-      match (act st (if op == "fire" then .fire else .stale)).bind (fun s1 => act s1 .tmoRecv) with
-      | some st1 => finish st1 "recv"
+      match act st (if op == "fire" then .fire else .stale) with
       | none => finish st "unarmed"
+      | some st1 =>
+        -- the callback blocks sending its token until the timeout goroutine is in its select
+        if isIdle st.s.tp then finish (settle 64 st1) "recv" else finish st1 "pending"
     else finish st "bad-op"
   | ["rel", t] =>
     let tid := tidOf t
